@@ -60,5 +60,11 @@ BudgetConfigs ==
           <<Lv("DE", 2, 1, "DontStop", 0), Lv("LOCAL", 0, 1, "DontStop", 0)>>,
           2, 0, "MetaepochLimit", 3, <<1, 1>>) EXCEPT !.budget = n] : n \in 0..6 }
 
+\* --- liveness: configurations whose global condition must hold eventually
+LiveConfigs ==
+    {Two("MetaepochLimit", n, <<1, 1>>, "DontStop", 0, "MetaepochLimit", 1, h) : n \in 0..3, h \in {0, 1}}
+    \cup {Three("MetaepochLimit", n, <<1, 1, 1>>, h) : n \in 2..3, h \in {0, 1}}
+    \cup {Two("MetaepochLimit", 3, <<1, 1>>, "DontRun", 0, "DontStop", 0, 0)}
+
 QuickConfigs == ScriptedConfigs \cup ShippedConfigs \cup LocalMethodConfigs \cup BudgetConfigs
 =============================================================================
